@@ -30,6 +30,132 @@ CLAIMS = {
              "outputs only (no closure theorem for them).",
         tech="Lean 4 proof (order laws by compareLex structure, uniqueness of stable sort, induction over op lists) + "
              "probed tables + differential correspondence with compiled Lean model"),
+    "C02": dict(level=PV, ref="§7 C02",
+        text="55 kernel-checked theorems, none open: characterisation of == (triEq_iff: same length and positionwise "
+             "cellEq; cellEq_iff: period, dates, prev, metadata, key set, np.array_equal values, Cell/CumulativeCell "
+             "interchangeable), reflexive/symmetric/transitive, one 'single edit makes it False' theorem per edit kind "
+             "(drop/append trailing cell, each date, value, field name, metadata attribute) with the re-sort by the "
+             "constructor taken into account, hash keys respect equality for Metadata, Cell and Triangle "
+             "(tables_hash ties the hashed attribute lists to the regenerated tables), and mem/le/inter/diff/isdisjoint "
+             "specifications in terms of cellEq. Correspondence: truth tables of ==, hash equality, in, <=, &, -, "
+             "isdisjoint for permuted / re-typed / serialisation-round-tripped copies, EVERY proper prefix, every "
+             "one-cell extension, every single-edit variant, and all pairs (transitivity through the matrix) of the "
+             "sub-triangles of a small cell universe in both bases; the Lean Spec judges the implementation's answers.",
+        note=COMMON_NOTE + "NaN-free data; 0-d arrays excluded from hash clauses (tuple(v) fails); builtin hash() is "
+             "trusted to respect == on int/float/str/date/tuple/frozenset.",
+        tech="Lean 4 proof (iff characterisation, counting argument for edits) + probed hash tables + truth-table "
+             "correspondence"),
+    "C04": dict(level=TV, ref="§7 C04",
+        text="Kernel-checked theorems about the model of to_incremental / to_cumulative: toCum_toInc (exact round trip "
+             "for every well-formed cumulative triangle: order, dates, metadata, key order, values and value kinds; "
+             "Cell becomes CumulativeCell), toInc_toCum (every complete incremental triangle), identity on the target "
+             "basis, TriangleError on a broken chain and on key mismatch in either direction, toInc_row_spec_partial "
+             "(one increment per evaluation date per row, produced by the row function). One bridge statement "
+             "(toInc_row_spec to the lookup-based Bool Spec) is OPEN, hence translation_validation. Correspondence: "
+             "dumps of both conversions incl. value kind and dtype, both round trips cell by cell on the "
+             "implementation, Spec.toIncRowSpec (independent predecessor lookup) on its output, refusals for every "
+             "one-link-removed / shifted variant.",
+        note=COMMON_NOTE + "Hypothesis beyond the statement: each field keeps one kind/dtype/shape along a row (the "
+             "quantifier's value classes satisfy it). Exactly representable values only.",
+        tech="Lean 4 theorems over Q (telescoping by induction on rows, regrouping lemmas) + differential correspondence"),
+    "C07": dict(level=TV, ref="§7 C07",
+        text="Model of triangle_to_dict and of the decoder (object_hook applied bottom-up to every object, "
+             "_parse_cell_set, _parse_observation) over a JSON AST. Proved: ISO date round trip for every valid date "
+             "1000-9999, typed-kind lemmas, fromDict_toDict_partial (the round trip under two still-open structural "
+             "statements), kernel-evaluated concrete round trips, and witnesses that the stated domain restrictions "
+             "are real (risk_basis None, a field named 'cells'). Three statements OPEN. Correspondence: every export "
+             "route against the model's AST via a plain json parser, every import route (string, handle, path, dict) "
+             "against model, original and each other incl. Python class/dtype/int-vs-float/None/sample order, JSON "
+             "text printed by the Lean driver and by an independent serializer loaded by the implementation.",
+        note=COMMON_NOTE + "json text layer and float repr round trip trusted (exercised with non-dyadic floats in a "
+             "separate stream). Domain (WFjson): risk_basis not None; keys avoid the hook's trigger names; years >= 1000.",
+        tech="Lean 4 model of encoder/decoder over a JSON AST + differential correspondence through plain parsers"),
+    "C08": dict(level=TV, ref="§7 C08",
+        text="11 kernel-checked theorems about the model of aggregate: window_consecutive/window_step/window_spec, "
+             "aggPeriod_cell_spec (exactly one output cell per slice, window and evaluation date that has a source "
+             "cell; additive field = sum over the source cells of that slice and evaluation date inside the window), "
+             "aggPeriod_conserves (per slice, evaluation date, field and sample), aggPeriod_error_iff_straddle_partial, "
+             "aggEval_eq_filter, evalGrid_spec, aggregate_incremental_commutes. The full straddle iff is OPEN. "
+             "Correspondence: dumps vs model for source resolutions 1/3/6/12 x target month/quarter/half-year/year x "
+             "origins at any month end in a 9-year span, day/week resolutions on day-level triangles, with the Spec "
+             "(closed-form windows, conservation, expectStraddle) on the implementation's output.",
+        note=COMMON_NOTE + "Non-month-end origins with month units only in a separate stream compared against the model. "
+             "Window disjointness relies on C12 date arithmetic (Spec evaluates the closed form on every output).",
+        tech="Lean 4 theorems (sum over a partition) + differential correspondence"),
+    "C09": dict(level=TV, ref="§7 C09",
+        text="21 kernel-checked theorems: the rule table regenerated from /repo by probing each closure is re-proved on "
+             "every run (additive_rules_bound: every additive field's rule is the sum of that same field; "
+             "ratio_rules_bound: documented weights; rules_complete; non_loss_metrics_bound), summarize_cell_spec, "
+             "summarize_conserves, gcd_keeps_exactly_shared, the three refusal theorems with their exception class, "
+             "no_premium_sum, summarize_ratio_spec (exact weighted average over Q). Three Bool-bridge statements OPEN. "
+             "Correspondence with EVERY registered field name in the generator, 2-4 slices differing in any subset of "
+             "attributes/details, both bases, summarize_premium both ways; conservation checked by the Spec on the "
+             "implementation's output.",
+        note=COMMON_NOTE + "exp/log of log_industry_lr are parameters of the model (key binding proved; value compared "
+             "in Python with rtol 1e-9).",
+        tech="Lean 4 theorems over regenerated rule tables (decide +kernel) and over Q + differential correspondence"),
+    "C11": dict(level=PV, ref="§7 C11",
+        text="40 kernel-checked theorems, none open, about clip (six inclusive bounds incl. development lag in "
+             "month/day/timedelta units), filter, select, right_edge, slices, split, 3-index getitem and extract: "
+             "clip_eq_filter_conj, clip_inclusive, clip_complement_partition, filter_unchanged_sorted (a sub-list of a "
+             "sorted list is not reordered by the constructor), slices_partition, split_partition, getItem_eq_filter, "
+             "rightEdge_spec (max evaluation date per row, one per slice and period), select_keeps_cells, "
+             "extract_length_order. Correspondence: dumps for bounds drawn from the triangle's own dates/lags, their "
+             "+-1 day / +-1 month neighbours and out-of-range values, every subset of fields and detail keys; "
+             "complementary clips must partition on the implementation.",
+        note=COMMON_NOTE + "Month lags are floats in the code and exact rationals in the model: lag bounds are the "
+             "triangle's own lags (bit-identical) and lags +-1, kept where float and exact comparison agree.",
+        tech="Lean 4 proof (filter/sublist/partition algebra on sorted lists) + differential correspondence"),
+    "C12": dict(level=TV, ref="§7 C12",
+        text="32 kernel-checked theorems about the exact model of date_utils: addMonths_devLag_iff (the inverse law "
+             "holds in the model iff the target is >= 1970 or a month end - the exact extent of known finding D8), "
+             "addMonths_devLag_partial, the pre-1970 counterexample, addMonths_int_monthId, addMonths_monthEnd, "
+             "addMonths_add, addMonths_neg, devLag_monthEnds_int, devLag_days_eq_ordinal_diff, ordinal/ofOrdinal "
+             "inverse on the whole date range, idToMonth/monthToId inverses, resolutionDelta laws. The all-dates "
+             "inverse law is kept OPEN (it is false: D8) as is the kernel-unevaluable unit-spelling table. The code is "
+             "IEEE floating point, the model exact: the tie is exhaustive on the property's finite domain - thorough "
+             "enumerates every date 1970-2100 x every k in [-600,600] (per-start-date digests from the compiled driver "
+             "vs bermuda.add_months), all pairs in sliding windows, 1900-1969; quick: all month ends x all k, random "
+             "dates x all k, 200k random pairs.",
+        note=COMMON_NOTE + "IEEE rounding inside add_months/dev_lag_months is not modelled (decided by enumeration on the "
+             "stated range). Known finding D8 (results before 1970-01-01) is listed in known_findings.json and printed "
+             "as KNOWN-FINDING; any failing input with expected result >= 1970 is a violation.",
+        tech="Lean 4 theorems over Q (floor/round arithmetic) + exhaustive enumeration digests from the compiled model"),
+    "C13": dict(level=TV, ref="§7 C13",
+        text="33 kernel-checked theorems: every accessor equals the sorted-distinct values / counts of the cells "
+             "(periods, evaluation_dates, dev_lags, fields, metadata, field_cell_counts, field_slice_counts), "
+             "isDisjoint_iff_pairwise_nonoverlap (the adjacent test is complete on start-sorted periods), nesting "
+             "regular => semi-regular => disjoint, resolution_dvd_all and resolution_greatest, experienceGaps_spec, "
+             "common_keeps_exactly_shared, recombine_diff for attributes and for details as sets; the Metadata-level "
+             "recombination equality is OPEN. Correspondence: accessor dumps vs model and taxonomy booleans vs "
+             "independently written Spec definitions over regular / semi-regular / irregular / erratic layouts.",
+        note=COMMON_NOTE + "Month-unit taxonomy compared only where float (in)equalities agree with the exact ones "
+             "(guard counts in the evidence).",
+        tech="Lean 4 theorems (sortedDedup, gcd, pairwise non-overlap) + differential correspondence"),
+    "C14": dict(level=TV, ref="§7 C14",
+        text="Row-algebra model of the wide/long CSV writers and readers, the array data frame and the Matrix form. "
+             "Proved: slices_preserved_keys (decide over the group-by key lists regenerated from /repo: they contain "
+             "the coordinates, all six metadata columns and the detail columns), groupKey_determines_metadata, "
+             "slices_preserved_wide/long, rows_count_wide/long, concrete round trips. The four general round-trip "
+             "statements are OPEN. Correspondence: CSV text parsed with Python's csv module vs the model's rows, "
+             "from_*_csv(to_*_csv(t)) vs original and model for slices distinguished by any single attribute or "
+             "detail, sample order through the scenario column, array-frame round trips over resolutions 1/3/6/12 and "
+             "every start month, Matrix round trips incl. quarterly periods evaluated annually and holey triangles.",
+        note=COMMON_NOTE + "pandas (dtype inference, NaN handling, date parsing, float formatting) is the trusted/opaque "
+             "layer; size-1/0-d arrays are canonicalised to their scalar as the property states 'numeric values as floats'.",
+        tech="Lean 4 theorems over regenerated group-by tables + row-model differential correspondence"),
+    "C15": dict(level=TV, ref="§7 C15",
+        text="13 kernel-checked theorems: for cumulative input rightTri_lags_exact_partial, rightTri_metadata_partial, "
+             "rightTri_values_empty_partial, rightTri_basis_partial, rightTri_empty_when_complete_partial, "
+             "rightTri_disjoint_partial (month-aligned), rightDiag_spec_partial; backfill_preserves_observed, "
+             "backfill_added_before_first, backfill_min_lag, backfill_values. 14 statements OPEN (incremental-input "
+             "versions, fill_* statements, day-unit disjointness). Every clause, proved or open, is evaluated by the "
+             "Lean Spec (rightTriSpec, rightDiagSpec, fillSpec, backfillSpec) on the implementation's output, and dumps "
+             "are compared with the model, for complete / upper-left / ragged / single-period / single-lag triangles, "
+             "1-3 slices, both bases, lag lists and units, resolutions, minimum lags incl. negative.",
+        note=COMMON_NOTE + "Domain: an explicit eval_resolution passed to fill_forward_gaps must divide the row's lag "
+             "differences; backfill has no per-slice completeness clause (see DESIGN §12.2).",
+        tech="Lean 4 theorems (membership/structure of added cells) + Spec predicates on implementation outputs"),
     "C10": dict(level=TV, ref="§7 C10",
         text="47 kernel-checked theorems about the model of join (six types, with and without `on`), merge, coalesce, "
              "add_statics and period_merge: join_keys (key multiset = the relational set expression for all six types, "
